@@ -84,15 +84,18 @@ func (p *protocolAdaptor) clientGetProtocolInitializer() (initializer protocolIn
 	clientVersion := int(maxSupportProtoVersion)
 	h.encode(headerSize, uint8(clientVersion), typeExchangeProtoVersion)
 	protocolTrace(h, nil, true)
+	vpo(vpHandshake, p.session, 1)
 	if err := blockWriteFull(p.session.connFd, h); err != nil {
 		return nil, err
 	}
+	vpo(vpHandshake, p.session, 2)
 	// recv peer's version
 	var recvHeader header
 	if recvHeader, err = waitEventHeader(p.session.connFd, typeExchangeProtoVersion); err != nil {
 		return nil, errors.New("protocolInitializerV3 clientInit failed,reason:" + err.Error())
 	}
 
+	vpo(vpHandshake, p.session, 3)
 	serverVersion := recvHeader.Version()
 	chosenVersion := uint8(minInt(clientVersion, int(serverVersion)))
 
@@ -110,6 +113,7 @@ func (p *protocolAdaptor) serverGetProtocolInitializer() (protocolInitializer, e
 		return nil, err
 	}
 
+	vpo(vpHandshake, p.session, 4)
 	initializer, err := createProtoVersionInitializer(p.session, h.Version(), h)
 	if err != nil {
 		return nil, err
@@ -130,6 +134,7 @@ func handleShareMemoryByFilePath(s *Session, hdr header) error {
 		}
 		return err
 	}
+	vpo(vpHandshake, s, 5)
 	bufferPath, queuePath := s.extractShmMetadata(body)
 	qm, err := mappingQueueManager(queuePath)
 	if err != nil {
@@ -138,6 +143,7 @@ func handleShareMemoryByFilePath(s *Session, hdr header) error {
 	}
 	s.queueManager = qm
 
+	vpo(vpHandshake, s, 6)
 	bm, err := getGlobalBufferManager(bufferPath, 0, false, nil)
 	if err != nil {
 		return fmt.Errorf("handleShareMemoryByFilePath mappingBufferManager failed, bufferPathLen:%d path:%s err=%s",
@@ -145,6 +151,7 @@ func handleShareMemoryByFilePath(s *Session, hdr header) error {
 	}
 	s.bufferManager = bm
 
+	vpo(vpHandshake, s, 7)
 	s.handshakeDone = true
 	return nil
 }
@@ -181,6 +188,7 @@ func handleExchangeVersion(s *Session, h header) error {
 	respHeader.encode(headerSize, maxSupportProtoVersion, typeExchangeProtoVersion)
 	s.communicationVersion = uint8(minInt(int(h.Version()), int(maxSupportProtoVersion)))
 	protocolTrace(respHeader, nil, true)
+	vpo(vpHandshake, s, 8)
 	return blockWriteFull(s.connFd, respHeader)
 }
 
@@ -193,6 +201,7 @@ func handleShareMemoryByMemFd(s *Session, h header) error {
 	if err != nil {
 		return errors.New("read shm metadata failed,reason:" + err.Error())
 	}
+	vpo(vpHandshake, s, 9)
 	bufferPath, queuePath := s.extractShmMetadata(body)
 
 	//2.send AckReadyRecvFD
@@ -202,12 +211,14 @@ func handleShareMemoryByMemFd(s *Session, h header) error {
 	if err := blockWriteFull(s.connFd, ack); err != nil {
 		return errors.New("send ack typeAckReadyRecvFD failed reason:" + err.Error())
 	}
+	vpo(vpHandshake, s, 10)
 	s.logger.infof("typeAckReadyRecvFD send finished")
 	//3.recv fd
 	oob := make([]byte, syscall.CmsgSpace(memfdCount*memfdDataLen))
 
 	s.logger.infof("send ack finished")
 	oobn, err := blockReadOutOfBoundForFd(s.connFd, oob)
+	vpo(vpHandshake, s, 11)
 	s.logger.infof("recvmsg finished, oob expect len:%d, len:%d", len(oob), oobn)
 	if err != nil {
 		return errors.New("try recv fd from peer failed,reason:" + err.Error())
@@ -237,18 +248,21 @@ func handleShareMemoryByMemFd(s *Session, h header) error {
 	s.logger.infof("recv memfd, bufferPath:%s queuePath:%s bufferFd:%d  queueFd:%d",
 		bufferPath, queuePath, bufferFd, queueFd)
 
+	vpo(vpHandshake, s, 12)
 	//4.mapping share memory
 	qm, err := mappingQueueManagerMemfd(queuePath, queueFd)
 	if err != nil {
 		return err
 	}
 	s.queueManager = qm
+	vpo(vpHandshake, s, 13)
 	bm, err := getGlobalBufferManagerWithMemFd(bufferPath, bufferFd, 0, false, nil)
 	if err != nil {
 		return err
 	}
 
 	s.bufferManager = bm
+	vpo(vpHandshake, s, 14)
 	s.handshakeDone = true
 	s.logger.infof("handleShareMemoryByMemFd done")
 	return nil
@@ -261,6 +275,7 @@ func handlePolling(s *Session, hdr header, buf []byte) (int, bool, error) {
 	for {
 		for ele, err := s.queueManager.recvQueue.pop(); err == nil; ele, err = s.queueManager.recvQueue.pop() {
 			consumedCount++
+			vpo(vpPollPopped, s, int64(consumedCount))
 			state := streamState(ele.status & 0xff)
 			stream := s.getStream(ele.seqID, state)
 			if stream == nil && state == streamOpened {
@@ -277,6 +292,7 @@ func handlePolling(s *Session, hdr header, buf []byte) (int, bool, error) {
 			retErr = s.handleStreamMessage(stream, bufferSliceWrapper{offset: ele.offsetInShmBuf}, state)
 		}
 
+		vpo(vpPollBeforeMNW, s, int64(consumedCount))
 		runtime.Gosched()
 		if s.queueManager.recvQueue.markNotWorking() {
 			break
@@ -308,6 +324,7 @@ func handleHotRestartAck(s *Session, hdr header, buf []byte) (int, bool, error) 
 	epochID := binary.BigEndian.Uint64(buf[:epochIDLen])
 	s.logger.warnf("%s [epoch:%d] receive hot restart ack", s.name, epochID)
 
+	vpo(vpLnAck, s, int64(epochID))
 	s.listener.mu.Lock()
 	defer s.listener.mu.Unlock()
 
@@ -356,6 +373,7 @@ func sendShareMemoryByFilePath(s *Session) error {
 	s.logger.infof("send share memory address to peer, size:%d queuePath:%s cap:%d bufferPath:%s cap:%d ",
 		len(data), s.queueManager.path, len(s.queueManager.mem), s.bufferManager.path, len(s.bufferManager.mem))
 	protocolTrace(data[:headerSize], data[headerSize:], true)
+	vpo(vpHandshake, s, 17)
 	if err := blockWriteFull(s.connFd, data); err != nil {
 		return err
 	}
@@ -374,9 +392,11 @@ func sendMemFdToPeer(s *Session) error {
 	if err := blockWriteFull(s.connFd, event); err != nil {
 		return err
 	}
+	vpo(vpHandshake, s, 15)
 	if _, err := waitEventHeader(s.connFd, typeAckReadyRecvFD); err != nil {
 		return err
 	}
+	vpo(vpHandshake, s, 16)
 	return sendFd(s.connFd, syscall.UnixRights(s.bufferManager.memFd, s.queueManager.memFd))
 }
 
